@@ -21,8 +21,7 @@ use poulpy_core::{
     },
 };
 use poulpy_hal::{
-    api::{ScratchOwnedBorrow},
-    layouts::{DataRef, Module, NoiseInfos, ReaderFrom, ScratchOwned, VecZnx, WriterTo, ZnxInfos, ZnxView, ZnxViewMut},
+    layouts::{DataRef, Module, NoiseInfos, ReaderFrom, Scratch, VecZnx, WriterTo, ZnxInfos, ZnxView, ZnxViewMut},
     source::Source,
 };
 use proptest::prelude::*;
@@ -64,7 +63,7 @@ pub struct Case {
 }
 
 impl Case {
-    fn kind(&self) -> usize {
+    pub fn kind(&self) -> usize {
         self.kind as usize % KINDS.len()
     }
     fn matrix(&self) -> bool {
@@ -77,8 +76,13 @@ impl Case {
         self.size() * self.base2k as usize - self.krem as usize
     }
     fn adapt(&mut self) {
+        self.adapt_gen(false)
+    }
+    /// `small`: ring degrees 8..128 for every routine (C12: alignment effects show at small N; no statistics needed)
+    pub fn adapt_gen(&mut self, small: bool) {
         let kind = self.kind();
         self.log_n = match kind {
+            _ if small => self.log_n.clamp(3, 7),
             0 | 1 => self.log_n.clamp(8, 9),
             2 => 6,
             7 | 8 => self.log_n.clamp(5, 6),
@@ -189,14 +193,17 @@ pub struct Built {
     pub bytes: Vec<u8>,
 }
 
-struct Seeds {
-    sk: u64,
-    xa: u64,
-    xe: u64,
-    pt: u64,
+pub struct Seeds {
+    pub sk: u64,
+    pub xa: u64,
+    pub xe: u64,
+    pub pt: u64,
 }
 
-fn build<B: FullBackend>(m: &Module<B>, c: &Case, s: &Seeds, scratch: &mut ScratchOwned<B>) -> Built {
+pub fn build<B: FullBackend>(m: &Module<B>, c: &Case, s: &Seeds, scr: &mut crate::enc::Scr<B>) -> Built
+where
+    Scratch<B>: poulpy_hal::api::ScratchFromBytes<B>,
+{
     let n = m.n();
     let (b, k) = (c.base2k as usize, c.k());
     let (nd, bb, kk) = (Degree(n as u32), Base2K(b as u32), TorusPrecision(k as u32));
@@ -245,7 +252,8 @@ fn build<B: FullBackend>(m: &Module<B>, c: &Case, s: &Seeds, scratch: &mut Scrat
                     pt.data.at_mut(0, j).copy_from_slice(l);
                 }
                 let mut ct = GLWE::alloc_from_infos(&lay);
-                m.glwe_encrypt_pk(&mut ct, &pt, &pkp, &enc, &mut xa, &mut xe, scratch.borrow());
+                let q = m.glwe_encrypt_pk_tmp_bytes(&lay);
+                m.glwe_encrypt_pk(&mut ct, &pt, &pkp, &enc, &mut xa, &mut xe, scr.get("glwe_encrypt_pk", q));
                 ct.write_to(&mut bytes).unwrap();
                 // all columns carry an error term; the "mask" view (columns 1..) is used for the plaintext / u-seed checks
                 let mut cell = cell_all_body(ct.data());
@@ -263,7 +271,8 @@ fn build<B: FullBackend>(m: &Module<B>, c: &Case, s: &Seeds, scratch: &mut Scrat
                 pt.data_mut().at_mut(0, j)[0] = v[0];
             }
             let mut ct = LWE::alloc_from_infos(&lay);
-            m.lwe_encrypt_sk(&mut ct, &pt, &l, &enc, &mut xe, &mut xa, scratch.borrow());
+            let q = m.lwe_encrypt_sk_tmp_bytes(&lay);
+            m.lwe_encrypt_sk(&mut ct, &pt, &l, &enc, &mut xe, &mut xa, scr.get("lwe_encrypt_sk", q));
             ct.write_to(&mut bytes).unwrap();
             vec![cell_of_lwe(ct.data())]
         }
@@ -271,7 +280,8 @@ fn build<B: FullBackend>(m: &Module<B>, c: &Case, s: &Seeds, scratch: &mut Scrat
             let lay = GGLWEToGGSWKeyLayout { n: nd, base2k: bb, k: kk, rank, dnum, dsize };
             let enc = EncryptionLayout::new(lay, ni).unwrap();
             let mut key = GGLWEToGGSWKey::alloc_from_infos(&lay);
-            m.gglwe_to_ggsw_key_encrypt_sk(&mut key, &sk, &enc, &mut xe, &mut xa, scratch.borrow());
+            let q = poulpy_core::GGLWEToGGSWKeyEncryptSk::gglwe_to_ggsw_key_encrypt_sk_tmp_bytes(m, &lay);
+            m.gglwe_to_ggsw_key_encrypt_sk(&mut key, &sk, &enc, &mut xe, &mut xa, scr.get("gglwe_to_ggsw_key_encrypt_sk", q));
             key.write_to(&mut bytes).unwrap();
             (0..c.rank as usize).flat_map(|i| cells_of_gglwe(key.at(i))).collect()
         }
@@ -279,7 +289,8 @@ fn build<B: FullBackend>(m: &Module<B>, c: &Case, s: &Seeds, scratch: &mut Scrat
             let lay = LWESwitchingKeyLayout { n: nd, base2k: bb, k: kk, dnum };
             let enc = EncryptionLayout::new(lay, ni).unwrap();
             let mut key = LWESwitchingKey::alloc_from_infos(&lay);
-            m.lwe_switching_key_encrypt_sk(&mut key, &lwe_sk(3, false), &lwe_sk(4, false), &enc, &mut xe, &mut xa, scratch.borrow());
+            let q = m.lwe_switching_key_encrypt_sk_tmp_bytes(&lay);
+            m.lwe_switching_key_encrypt_sk(&mut key, &lwe_sk(3, false), &lwe_sk(4, false), &enc, &mut xe, &mut xa, scr.get("lwe_switching_key_encrypt_sk", q));
             key.write_to(&mut bytes).unwrap();
             cells_of_gglwe(&key)
         }
@@ -289,7 +300,8 @@ fn build<B: FullBackend>(m: &Module<B>, c: &Case, s: &Seeds, scratch: &mut Scrat
             let lay = LWEToGLWEKeyLayout { n: nd, base2k: bb, k: kk, dnum, rank_out: rank };
             let enc = EncryptionLayout::new(lay, ni).unwrap();
             let mut key = LWEToGLWEKey::alloc_from_infos(&lay);
-            m.lwe_to_glwe_key_encrypt_sk(&mut key, &lwe_sk(3, false), &skp, &enc, &mut xe, &mut xa, scratch.borrow());
+            let q = m.lwe_to_glwe_key_encrypt_sk_tmp_bytes(&lay);
+            m.lwe_to_glwe_key_encrypt_sk(&mut key, &lwe_sk(3, false), &skp, &enc, &mut xe, &mut xa, scr.get("lwe_to_glwe_key_encrypt_sk", q));
             key.write_to(&mut bytes).unwrap();
             cells_of_gglwe(&key)
         }
@@ -297,7 +309,8 @@ fn build<B: FullBackend>(m: &Module<B>, c: &Case, s: &Seeds, scratch: &mut Scrat
             let lay = GLWEToLWEKeyLayout { n: nd, base2k: bb, k: kk, rank_in: rank, dnum };
             let enc = EncryptionLayout::new(lay, ni).unwrap();
             let mut key = GLWEToLWEKey::alloc_from_infos(&lay);
-            m.glwe_to_lwe_key_encrypt_sk(&mut key, &lwe_sk(3, false), &sk, &enc, &mut xe, &mut xa, scratch.borrow());
+            let q = m.glwe_to_lwe_key_encrypt_sk_tmp_bytes(&lay);
+            m.glwe_to_lwe_key_encrypt_sk(&mut key, &lwe_sk(3, false), &sk, &enc, &mut xe, &mut xa, scr.get("glwe_to_lwe_key_encrypt_sk", q));
             key.write_to(&mut bytes).unwrap();
             cells_of_gglwe(&key)
         }
@@ -307,7 +320,8 @@ fn build<B: FullBackend>(m: &Module<B>, c: &Case, s: &Seeds, scratch: &mut Scrat
             let lay = BlindRotationKeyLayout { n_glwe: nd, n_lwe: Degree(n_lwe as u32), base2k: bb, k: kk, dnum, rank };
             let enc = EncryptionLayout::new(lay, ni).unwrap();
             let mut key = BlindRotationKey::<Vec<u8>, CGGI>::alloc(&lay);
-            m.blind_rotation_key_encrypt_sk(&mut key, &skp, &lwe_sk(3, true), &enc, &mut xe, &mut xa, scratch.borrow());
+            let q = <Module<B> as poulpy_bin_fhe::blind_rotation::BlindRotationKeyEncryptSk<CGGI, B>>::blind_rotation_key_encrypt_sk_tmp_bytes(m, &lay);
+            m.blind_rotation_key_encrypt_sk(&mut key, &skp, &lwe_sk(3, true), &enc, &mut xe, &mut xa, scr.get("blind_rotation_key_encrypt_sk", q));
             key.write_to(&mut bytes).unwrap();
             brk_cells(&bytes, &lay)
         }
@@ -321,7 +335,8 @@ fn build<B: FullBackend>(m: &Module<B>, c: &Case, s: &Seeds, scratch: &mut Scrat
             let (sg, bd) = NOISES[c.noise as usize];
             let enc = CircuitBootstrappingEncryptionInfos { brk: ni, atk: NoiseInfos::new(k_atk, sg, bd).unwrap(), tsk: NoiseInfos::new(k_tsk, sg, bd).unwrap() };
             let mut key = CircuitBootstrappingKey::<Vec<u8>, CGGI>::alloc_from_infos(&lay);
-            key.encrypt_sk(m, &lwe_sk(3, true), &sk, &enc, &mut xe, &mut xa, scratch.borrow());
+            let q = <Module<B> as poulpy_bin_fhe::circuit_bootstrapping::CircuitBootstrappingKeyEncryptSk<CGGI, B>>::circuit_bootstrapping_key_encrypt_sk_tmp_bytes(m, &lay);
+            key.encrypt_sk(m, &lwe_sk(3, true), &sk, &enc, &mut xe, &mut xa, scr.get("circuit_bootstrapping_key_encrypt_sk", q));
             key.write_to(&mut bytes).unwrap();
             // stream = blind-rotation key | count | (galois element, automorphism key)* | GGLWE-to-GGSW key
             let mut probe = vec![];
@@ -354,12 +369,15 @@ fn build<B: FullBackend>(m: &Module<B>, c: &Case, s: &Seeds, scratch: &mut Scrat
     Built { cells, bytes }
 }
 
-fn run<B: FullBackend>(m: &Module<B>, c: &Case, thorough: bool) -> Verdict {
+fn run<B: FullBackend>(m: &Module<B>, c: &Case, thorough: bool) -> Verdict
+where
+    Scratch<B>: poulpy_hal::api::ScratchFromBytes<B>,
+{
     let kind = KINDS[c.kind()];
     let pk_enc = c.kind() == 1;
     let b = c.base2k as usize;
     let fail = |what: &str, d: String| Verdict::fail(format!("{kind}|{what}"), format!("backend={} {kind}: {d}\ncase={c:?}", c.be.name()));
-    let mut scratch = pzv_be::dirty_scratch::<B>(1 << 22);
+    let mut scr = crate::enc::Scr::<B>::new();
     let ni = c.noise_infos();
     let (limb, scale) = ni.target_limb_and_scale(b);
     let e_max = (ni.bound * scale).round() as i128;
@@ -375,7 +393,7 @@ fn run<B: FullBackend>(m: &Module<B>, c: &Case, thorough: bool) -> Verdict {
     let mut compared = 0u64;
     loop {
         let s0 = Seeds { sk: c.seed_sk, xa: c.seed_xa.wrapping_add(rep * 0x1000_0001), xe: c.seed_xe.wrapping_add(rep * 0x2000_0003), pt: c.seed_pt };
-        let o1 = build(m, c, &s0, &mut scratch);
+        let o1 = build(m, c, &s0, &mut scr);
         cells_per_obj = o1.cells.len();
         if rep == 0 && !pk_enc {
             use std::collections::HashMap;
@@ -390,17 +408,17 @@ fn run<B: FullBackend>(m: &Module<B>, c: &Case, thorough: bool) -> Verdict {
             }
         }
         if rep == 0 {
-            let o1b = build(m, c, &s0, &mut scratch);
+            let o1b = build(m, c, &s0, &mut scr);
             if o1.bytes != o1b.bytes {
                 let d = o1.bytes.iter().zip(o1b.bytes.iter()).filter(|(x, y)| x != y).count();
                 return fail("not-deterministic", format!("two runs with identical secrets, plaintext and seeds differ in {d} of {} serialised bytes", o1.bytes.len()));
             }
         }
-        let o2 = build(m, c, &Seeds { sk: s0.sk, xa: s0.xa, xe: s0.xe ^ 0x5EED_0001, pt: s0.pt }, &mut scratch);
+        let o2 = build(m, c, &Seeds { sk: s0.sk, xa: s0.xa, xe: s0.xe ^ 0x5EED_0001, pt: s0.pt }, &mut scr);
         // the remaining variants are exact checks: every repetition for cheap objects, the first few otherwise
         let exact_round = rep < 4 || c.kind() == 2;
-        let o3 = if exact_round { Some(build(m, c, &Seeds { sk: if pk_enc { s0.sk } else { s0.sk ^ 0x5EED_0002 }, xa: s0.xa, xe: s0.xe, pt: s0.pt ^ 0x5EED_0003 }, &mut scratch)) } else { None };
-        let o4 = if exact_round { Some(build(m, c, &Seeds { sk: s0.sk, xa: s0.xa ^ 0x5EED_0004, xe: s0.xe, pt: s0.pt }, &mut scratch)) } else { None };
+        let o3 = if exact_round { Some(build(m, c, &Seeds { sk: if pk_enc { s0.sk } else { s0.sk ^ 0x5EED_0002 }, xa: s0.xa, xe: s0.xe, pt: s0.pt ^ 0x5EED_0003 }, &mut scr)) } else { None };
+        let o4 = if exact_round { Some(build(m, c, &Seeds { sk: s0.sk, xa: s0.xa ^ 0x5EED_0004, xe: s0.xe, pt: s0.pt }, &mut scr)) } else { None };
         for (ci, cell) in o1.cells.iter().enumerate() {
             let c2 = &o2.cells[ci];
             if !pk_enc {
